@@ -258,6 +258,7 @@ func scriptStr(sc []Out) string {
 
 // Event is one listener call.
 type Event struct {
+	Tick   int
 	Policy int // index in the stack, -1 = executor
 	Name   string
 	At     int64
@@ -285,6 +286,7 @@ func (e Event) String() string {
 
 // Inv is one invocation of the wrapped function.
 type Inv struct {
+	Tick       int
 	Index      int
 	Start, End int64
 	Thread     int
@@ -332,7 +334,12 @@ type Env struct {
 	Held           int // permits held through a standalone API
 	Notes          string
 	Reduce         bool // observation points are scheduling points on the env (needed with the state cache)
+	Tick           int  // number of observation points so far (a logical clock over observations)
+	OnEvent        func(e *Event)
 }
+
+//go:norace
+func (env *Env) tick() int { env.Tick++; return env.Tick }
 
 // obs makes a harness observation an event that conflicts with every other observation, so that
 // the state cache explores both orders of two observations in different threads.
@@ -340,6 +347,7 @@ func (env *Env) obs() {
 	if env.Reduce {
 		vrt.PointObj("obs", unsafe.Pointer(env))
 	}
+	env.tick()
 }
 
 //go:norace
@@ -391,7 +399,11 @@ func (env *Env) ev(e Event) {
 	}
 	e.At = vrt.Elapsed()
 	e.Thread = vrt.ThreadID()
+	e.Tick = env.Tick
 	env.Events = append(env.Events, e)
+	if env.OnEvent != nil {
+		env.OnEvent(&env.Events[len(env.Events)-1])
+	}
 }
 
 func (env *Env) attemptEv(p int, name string) func(failsafe.ExecutionEvent[int]) {
@@ -413,6 +425,7 @@ func (env *Env) doneEv(p int, name string) func(failsafe.ExecutionDoneEvent[int]
 
 func (env *Env) stateEv(p int, name string) func(circuitbreaker.StateChangedEvent) {
 	return func(e circuitbreaker.StateChangedEvent) {
+		env.obs()
 		m := e.Metrics()
 		env.ev(Event{Policy: p, Name: name, Old: e.OldState, New: e.NewState, MExec: m.Executions(), MFail: m.Failures(), MSucc: m.Successes()})
 	}
@@ -610,6 +623,7 @@ type Exe struct {
 	ResE      error
 	DoneAt    int64
 	StartedAt int64
+	StartTick int
 	Ctx       context.Context
 	Cancel    func()
 }
@@ -625,7 +639,7 @@ func (x *Exe) enter(exec failsafe.Execution[int]) (*Inv, Out) {
 	env := x.Env
 	k := len(x.Invs)
 	o := x.Script[min(k, len(x.Script)-1)]
-	inv := &Inv{Index: k, Start: vrt.Elapsed(), Thread: vrt.ThreadID(), Exec: exec}
+	inv := &Inv{Index: k, Start: vrt.Elapsed(), Thread: vrt.ThreadID(), Exec: exec, Tick: env.Tick}
 	x.Invs = append(x.Invs, inv)
 	env.Invs = append(env.Invs, inv)
 	env.InFlight++
